@@ -32,7 +32,7 @@ type c09Replay struct {
 func c09Project(r *gen.Rand) map[string]string {
 	return map[string]string{
 		"src/entry.ts":                  "import { a } from \"./a\";\nimport b from \"./b.js\";\nimport data from \"./data.json\";\nimport { Comp, K } from \"./comp\";\nimport pkg from \"pkg\";\nimport \"pkg/effect\";\nimport aliased from \"alias/thing\";\nimport { version } from \"helper.js\";\nconsole.log(a, b, data, Comp, new K(), pkg, aliased, version);\n",
-		"node_modules/helper.js":     "export const version = 1;\n",
+		"node_modules/helper.js":        "export const version = 1;\n",
 		"src/a.js":                      "export const a = \"a.js\";\n",
 		"src/b.js":                      "export default \"b-one\";\n",
 		"src/data.json":                 "{\"k\": 1, \"list\": [1, 2]}\n",
